@@ -1359,6 +1359,20 @@ func (a *Analysis) CheckC18(rep *Report) {
 		rej := a.spuriousRejections(pp.paths)
 		rep.Ob("O3-reader-accepts-values-at-the-limit", FuncName(pp.fn), len(rej) == 0, a.P.Pos(pp.fn.Pos()),
 			"the reader can refuse a complete value: "+strings.Join(rej, "; "))
+		// O4: a list at the limit has as many elements as the largest prefix says: the loop that reads them must be one
+		// whose trip count is known for every count of the prefix type – a counter of the prefix's own type tested with
+		// `<=` steps past the type's maximum and starts again when the count is that maximum
+		seenLoop := map[int]bool{}
+		for _, p := range pp.paths {
+			walkEvents(p.Events, func(e *Event, _ int) {
+				if e.Kind != EvRep || seenLoop[e.LoopID] || !altHasWire(e) {
+					return
+				}
+				seenLoop[e.LoopID] = true
+				rep.Ob("O4-list-loop-counted-for-every-count", fmt.Sprintf("%s:loop#%d", FuncName(pp.fn), len(seenLoop)), e.Bounded != "", a.P.Pos(e.Pos),
+					"the loop reading the elements is not shown to run exactly once per element for every count the prefix type can hold (trip count "+valOrNil(e.Count)+"): a counter that wraps at the type's limit, or a test other than counter-against-count")
+			})
+		}
 	}
 	rep.Counts["length_prefix_writes"] = nprefix
 	rep.Counts["writer_primitives_and_instances"] = np
